@@ -141,6 +141,9 @@ def cfgStep (c : Cfg) (ws : List String) : Option Cfg :=
     let body? : Option (List PInst × List XConn × List XConn) :=
       if tmpl == "transform-set" || tmpl == "transform-delete" then some ([⟨"R", "@real", []⟩], through, through)
       else if tmpl == "sanitize" then some ([⟨"R", "@real", []⟩], through, [⟨gS, gE⟩])
+      else if tmpl == "queue" then
+        some ([⟨"Q", "@queue", []⟩],
+              [⟨gS, .proc "Q" ""⟩, ⟨.proc "Q" "allowed", gE⟩, ⟨.proc "Q" "blocked", gE⟩], [⟨gS, gE⟩])
       else if tmpl == "generate" then
         some ([⟨"T", "@real", []⟩, ⟨"R", "@real", []⟩], [⟨gS, .proc "T" ""⟩, ⟨.proc "T" "", .proc "R" ""⟩],
               [⟨.proc "R" "", gE⟩])
@@ -151,7 +154,7 @@ def cfgStep (c : Cfg) (ws : List String) : Option Cfg :=
       | _ => none
     match body?, url? with
     | some (procs, rq, rs), some u =>
-      some { c with pdefs := c.pdefs ++ [⟨"@real", [⟨"", "any"⟩], []⟩]
+      some { c with pdefs := c.pdefs ++ [⟨"@real", [⟨"", "any"⟩], []⟩, ⟨"@queue", [⟨"allowed", "req"⟩, ⟨"blocked", "req"⟩], []⟩]
                     flows := c.flows ++ [{ name := pctDec n, url := some u, procs := procs, req := rq, res := rs }] }
     | _, _ => none
   | ["rawfile", dir, kind] =>
@@ -251,6 +254,16 @@ def runStep (s : RunSt) (line : String) : RunSt × String :=
       | none => (s, "not-loaded")
       | some fls => (s, fmtTxn (runTxn s.cfg fls t.toOracle d))
     | _, _ => (s, "bad-op")
+  | "stress" :: rest =>
+    -- transactions running while the engine's other goroutines run (metrics reader, processors' background
+    -- loops): the only requirement is that the engine survives
+    match kv rest "kind", kvNat rest "ms", kvNat rest "workers" with
+    | some k, some ms, some w =>
+      if !(k == "metrics" || k == "queue" || k == "all") || ms < 1 || ms > 5000 || w < 1 || w > 16 then (s, "bad-op")
+      else match s.loaded with
+        | none => (s, "not-loaded")
+        | some _ => (s, "done")
+    | _, _, _ => (s, "bad-op")
   | "rtxn" :: rest =>
     match (kv rest "dir").bind parseDir with
     | some _ =>
@@ -303,6 +316,10 @@ def judgeStep (s : JudgeSt) (op out : String) : JudgeSt :=
     match parseTxnObs out with
     | some t => { s with txns := t :: s.txns }
     | none => { s with bad := some ("unparsable-txn-answer:" ++ pctEnc out) }
+  | "stress" :: _ =>
+    match parseTxnObs out with
+    | some t => { s with txns := t :: s.txns }
+    | none => { s with bad := some ("unparsable-stress-answer:" ++ pctEnc out) }
   | "rtxn" :: _ =>
     match parseTxnObs out with
     | some t => { s with txns := t :: s.txns }
